@@ -90,11 +90,11 @@ def _agrees(s):
     for which, st, v in _impl(s):
         if want is None:
             if st != 'refused':
-                rt.note('%s accepted %r as %r; it must be refused' % (which, s, v))
+                rt.note('%s accepted %r as %r; it must be refused', which, s, v)
                 return False
         else:
             if st != 'ok' or v != want:
-                rt.note('%s(%r) -> %s %r; it denotes %r' % (which, s, st, v, want))
+                rt.note('%s(%r) -> %s %r; it denotes %r', which, s, st, v, want)
                 return False
     return True
 
